@@ -10,7 +10,7 @@ def gather(ctx, ns_min=0, tz="UTC", scale=1.0, gapfrac=0.12, timevals=True):
     cnt = int((960 if quick else 24000) * scale)
     jobs = [{"script": "d_timeline.py", "tz": tz,
              "stdin_obj": {"seed": ctx.seed * 9973 + k * 17 + ns_min, "mode": "draw", "count": max(1, cnt // core.NCPU), "ns_min": ns_min,
-                           "gapfrac": gapfrac, "timevals": timevals}}
+                           "gapfrac": gapfrac, "timevals": timevals, "pinned": k == 0}}
             for k in range(core.NCPU)]
     recs = []
     errors = []
